@@ -438,6 +438,20 @@ def rule_string_chains(toks, string_idents, log):
             if t.kind == "punct" and t.text in OPEN:
                 e = match_close(seq, i)
                 inner = process(seq[i + 1:e])
+                inner_sig = [x.text for x in inner if x.kind != "ws"]
+                # ( <replaced chain> ).to_string()  ->  verif_fmt()
+                nxt = [x for x in seq[e + 1:e + 12] if x.kind != "ws"][:5]
+                if t.text == "(" and inner_sig == ["verif_fmt", "(", ")"] and len(nxt) >= 4 and [x.text for x in nxt[:4]] == [".", "to_string", "(", ")"]:
+                    res.extend(inner)
+                    # skip to after the closing paren of to_string()
+                    k = e + 1
+                    seen = 0
+                    while seen < 4:
+                        if seq[k].kind != "ws":
+                            seen += 1
+                        k += 1
+                    i = k
+                    continue
                 res.append(t)
                 res.extend(inner)
                 res.append(seq[e])
@@ -577,6 +591,72 @@ def rule_string_chains(toks, string_idents, log):
         return seg
 
     return process(toks)
+
+
+def rule_deref_compare(toks, names, log):
+    """R8: `X op Y` with op in == != < > <= >= and X, Y bare identifiers declared (per item) to be
+    reference-typed bindings becomes `*X op *Y`. std's comparison impls for references forward to
+    the referents; Verus has no specification for the forwarding impls."""
+    names = set(names)
+    out = []
+    i = 0
+    n = len(toks)
+    sigidx = [k for k, t in enumerate(toks) if t.kind != "ws"]
+    pos_in_sig = {k: j for j, k in enumerate(sigidx)}
+    skip_star_for = set()
+    for j, k in enumerate(sigidx):
+        t = toks[k]
+        if t.kind != "ident" or t.text not in names:
+            continue
+        prev = toks[sigidx[j - 1]] if j > 0 else None
+        if prev is not None and prev.kind == "punct" and prev.text in (".", "*", "&", ":"):
+            continue
+        # operator
+        if j + 1 >= len(sigidx):
+            continue
+        o1 = toks[sigidx[j + 1]]
+        if o1.kind != "punct" or o1.text not in ("=", "!", "<", ">"):
+            continue
+        jj = j + 2
+        op = o1.text
+        if jj < len(sigidx):
+            o2 = toks[sigidx[jj]]
+            if o2.kind == "punct" and o2.text == "=" and o2.pos == o1.pos + 1:
+                op += "="
+                jj += 1
+        if op not in ("==", "!=", "<", ">", "<=", ">="):
+            continue
+        if jj >= len(sigidx):
+            continue
+        rhs = toks[sigidx[jj]]
+        if rhs.kind != "ident" or rhs.text not in names:
+            continue
+        after = toks[sigidx[jj + 1]] if jj + 1 < len(sigidx) else None
+        if after is not None and after.kind == "punct" and after.text in (".", "(", "[", ":"):
+            continue
+        skip_star_for.add(sigidx[j])
+        skip_star_for.add(sigidx[jj])
+        log.append("R8: %s %s %s -> *%s %s *%s" % (t.text, op, rhs.text, t.text, op, rhs.text))
+    for k, t in enumerate(toks):
+        if k in skip_star_for:
+            out.append(Tok("punct", "*", -1))
+        out.append(t)
+    return out
+
+
+def rule_replace_loops(toks, repl, selector, log):
+    """R9: the N-th loop statement of the body is replaced as a whole by the given text (used for
+    loops outside Verus' subset that the unit's precondition makes unreachable; the replacement
+    is a call with precondition `false`, so unreachability is proved, not assumed)."""
+    for n, text in sorted(repl, key=lambda x: -x[0]):
+        ifn, ibody, iend = find_fn_parts(toks)
+        loops = loop_headers(toks, ibody, iend)
+        if n < 1 or n > len(loops):
+            raise LostAnchor("replace_loop %d: %s has %d loops" % (n, selector, len(loops)))
+        kw, lo, lc = loops[n - 1]
+        log.append("R9: loop %d (%r ...) replaced by %r" % (n, text_of(toks[kw:lo]).strip()[:60], text))
+        toks = toks[:kw] + tokenize(text) + toks[lc + 1:]
+    return toks
 
 
 def find_fn_parts(toks):
@@ -850,6 +930,13 @@ def parse_unit(path):
                 elif d.startswith("strings "):
                     flush_sub()
                     cur["strings"] = [x.strip() for x in d[8:].split(",")]
+                elif d.startswith("derefs "):
+                    flush_sub()
+                    cur["derefs"] = [x.strip() for x in d[7:].split(",")]
+                elif d.startswith("replace_loop "):
+                    flush_sub()
+                    m = re.match(r"replace_loop\s+(\d+)\s+with\s+<<(.*?)>>", d)
+                    cur.setdefault("replace_loops", []).append((int(m.group(1)), m.group(2)))
                 elif d.startswith("replace "):
                     flush_sub()
                     m = re.match(r"replace\s+<<(.*?)>>\s+with\s+<<(.*?)>>", d)
@@ -911,6 +998,10 @@ def extract_unit(unit_path, repo, out_rs, out_meta):
             if cnt == 0:
                 raise LostAnchor("replace anchor %r not found in %s" % (old, item["selector"]))
         if kind == "fn":
+            if item.get("replace_loops"):
+                toks = rule_replace_loops(toks, item["replace_loops"], " :: ".join(item["selector"]), log)
+            if item.get("derefs"):
+                toks = rule_deref_compare(toks, item["derefs"], log)
             toks = rule_macros(toks, log)
             strings = set(unit["strings"]) | set(item.get("strings", []))
             toks = rule_string_chains(toks, strings, log)
